@@ -119,7 +119,16 @@ func VerifHarness_C05_Delta() {
 	o1.PipelineOnly = verifBool("pipelineOnly")
 	q1 := variants[verifIntRange("q1", 0, len(variants)-1)]
 	o2 := o1
-	switch verifIntRange("delta", 0, 9) {
+	switch verifIntRange("delta", 0, 13) {
+	case 10:
+		o2.PipelineBoost = 2.5
+	case 11:
+		o1.PipelineBoost, o2.PipelineBoost = 1.5, 3.0
+	case 12:
+		o2.FuzzyThreshold = -5
+	case 13:
+		o1.ContextBoosts = map[string]float64{"cc": 2.0}
+		o2.ContextBoosts = map[string]float64{"cc": 3.0}
 	case 0:
 	case 1:
 		o2.Limit = 4 - o1.Limit
